@@ -1,5 +1,8 @@
 import Abyss.Props.C17
 import Abyss.Lemmas.EngineStats
+import Abyss.Props.GenCorollaries2
+#print axioms Abyss.C17_generated_stats
+#print axioms Abyss.C17_generated_stats_of_image
 #print axioms Abyss.C17_free_counts
 #print axioms Abyss.C17_key_stats
 #print axioms Abyss.C17_value_stats
